@@ -31,6 +31,10 @@ import (
 //   idx%3 == 2  reader only, no limits: strict, fault-tolerant, format-preserving readers and the lexer
 //   and, interleaved as every seventh case, the formals zoo (c03_formals.go): formals lists
 //   enumerated x every definer x every kind of call site x call shapes
+//   every thirteenth case: re-entrant callbacks (c03_reentrant.go)
+//   after all of them, as a block: operator forms (c03_opforms.go): every special operator
+//   and macro x list-shaped arguments empty / 1 / several x body forms that are calls,
+//   evaluated as source in tail and non-tail positions
 
 func init() {
 	fw.Register(&fw.Prop{
@@ -40,14 +44,17 @@ func init() {
 			"(2) every function, operator and macro found in the registry at run time x arities 0..max+2 x argument tuples from a pool of ~60 values of every type (boundary ints, NaN/Inf, invalid UTF-8 and long strings, bytes, symbols/keywords, nested/empty lists and vectors, 0-dim and multi-dimensional arrays, maps incl. JSON-decoded, cyclic containers, natives, error values, builtin/lambda/macro/operator function values, tagged values); (3) the same byte corpus through the three readers and the bare lexer without limits. " +
 			"(4) formals zoo (every seventh case): formals lists enumerated x every definer x every kind of call site x call shapes; " +
 			"(5) re-entrant callbacks (every thirteenth case): every (registered function, arity 2..5, callback position, container position) on which a counting callback is invoked at all, found by calling the whole registry, plus listed call forms (handlers, compose/flip/curry-function wrappers, thread-*, dotimes, keys) x a callback that on its 1st / 2nd / last / every invocation does one thing (append! once, twice, nine at once, append-bytes!, assoc! new/existing key, dissoc!, elpspath ?set! ?del! ?del! twice ?nil!, a nested stable-sort, re-binding the variable, raising, the same call again, load-string) to the container the builtin is working on, to the vector a view was taken from, to a view of it or to the element it was handed x vectors (full, spare capacity), lists (built, quoted), bytes, sorted-maps, a host-built 2-dimensional array, rest / slice views, vectors of vectors, of 2, 3, 8, 25, 50 elements (thorough: drawn sizes up to 60); afterwards the container and the result are read (length, printing, equal?, map, json, nth). " +
+			"(6) operator forms (a block after the other cases): every special operator and macro found in the registry, written as source with FORMS as arguments: every argument position in turn list-shaped (the empty list; 1, 2, 3 entries of one kind: symbols, numbers, name/value pairs with a literal or a call, condition/handler pairs, function definitions with and without body, test/body and test-only clauses, empty lists; name/count pairs with count 0, 1, 3, a call), the other positions body forms (literal; calls of a builtin, a user function, a lambda, a user macro, through funcall, one that raises, the recursive call of the enclosing function under if; calls in tail position of if / progn / let / cond), arities 0 .. one past the formals, each evaluated at top level, in tail position of a named function, and (quick: one of, thorough: all of) as argument of a call inside a function, as non-final body form, in tail position of a lambda called through funcall, inside a handler-bind that has a clause; past an operator's enumeration random compositions (operator forms inside operator forms, mixed lists of 0-4 entries). " +
 			"Oracle: the call returns, the result is not lisp.IsInternalPanic, no Go panic escapes, the worker survives. distinct_nontrivial counts distinct (source class, outcome condition) and (package:function, arity, outcome condition class) signatures",
 		Assumptions: []string{
 			"total memory is not bounded by elps (documented); inputs are kept <= 2 MiB and MaxAlloc is set to 1M elements so a single builtin call cannot exhaust the machine",
 			"a per-case wall-clock watchdog (120 s, generous: cases take milliseconds) ends the worker; the driver reports the last logged case. Blocking builtins are only reached under a context deadline",
 			"host builtins registered by the harness itself (package verif, which panics on demand) are excluded from the sweep",
 			"re-entrant callbacks: WHAT a builtin answers when its container changes under it is unspecified and not judged (any value or ordinary error is accepted); the runs evaluate forms read once per worker through EvalContext, and a failure is loaded again as one source text in a fresh runtime (reported either way, the summary says whether it showed there too)",
+			"operator forms: WHAT an operator answers to a degenerate shape (a value, which error) is not judged; the forms of a case are read as one text and evaluated one top-level form at a time through EvalContext in one runtime (definitions made by earlier forms of the case stay), each with its own step budget of 100000; a failure is loaded again as one source text in a fresh runtime and the summary says what it answered there",
 		},
-		Cases:         func(tier string) int { return pick(tier, 15167, 505555) }, // 12000 / 400000 + every seventh + every thirteenth
+		// 12000 / 400000 + every seventh + every thirteenth, then the block of operator forms
+		Cases:         func(tier string) int { return pick(tier, c03BaseQuick+c03OfQuickCases, c03BaseThorough+c03OfThorough) },
 		Run:           c03Run,
 		Init:          c03Init,
 		Driver:        c03Driver,
@@ -55,6 +62,12 @@ func init() {
 		WorkerTimeout: func(tier string) time.Duration { return time.Duration(pick(tier, 25, 240)) * time.Minute },
 	})
 }
+
+// the cases of families (1)-(5); the operator forms follow them
+const (
+	c03BaseQuick    = 15167
+	c03BaseThorough = 505555
+)
 
 type c03State struct {
 	files [][]byte
@@ -167,6 +180,12 @@ var c03CaseIdx int
 
 func c03Run(w *fw.W, idx int) {
 	c03CaseIdx = idx
+	// the operator forms (c03_opforms.go) are a block appended to the case list: the
+	// cases before it keep their numbers
+	if base := pick(w.Tier, c03BaseQuick, c03BaseThorough); idx >= base {
+		c03OpForms(w, idx, idx-base)
+		return
+	}
 	// every thirteenth case belongs to the re-entrant callbacks (c03_reentrant.go); the
 	// others keep the numbering they had before that family was interleaved
 	if idx%13 == 12 {
